@@ -221,3 +221,10 @@ def shrink(case, still_fails, budget=60):
         if not progressed:
             break
     return cur
+
+
+def has_noref(case):
+    for role, m, o in _tmaps(case):
+        if m['k'] == 'templ' and '{' not in m['v'].replace('\\{', ''):
+            return True
+    return False
